@@ -25,7 +25,7 @@ func init() { Registry["C01"] = C01 }
 var c01Frag = map[string]string{
 	"DOLLAR": "$", "VAR": "$x", "IDENT": "foo", "INT": "1", "NEGINT": "-1", "SPACE": " ", "NL": "\n", "SEMI": ";", "COMMA": ",", "ASSIGN": "=", "ARROW": "=>",
 	"GT": ">", "PLUS": "+", "STAR": "*", "DOT": ".", "LPAREN": "(", "RPAREN": ")", "LBRACK": "[", "RBRACK": "]", "LBRACE": "{", "RBRACE": "}",
-	"DQUOTE": "\"", "SQUOTE": "'", "INTERP": "{$", "HEREDOC": "<<<A\n", "HEREDOC_END": "\nA;\n", "BLOCK_OPEN": "/*", "BLOCK_CLOSE": "*/", "LINE_COMMENT": "//",
+	"DQUOTE": "\"", "SQUOTE": "'", "INTERP": "{$", "HEREDOC": "<<<EOT\n", "NOWDOC": "<<<'EOT'\n", "HEREDOC_END": "\nEOT;\n", "HEREDOC_END0": "EOT;\n", "BLOCK_OPEN": "/*", "BLOCK_CLOSE": "*/", "LINE_COMMENT": "//",
 	"OPEN_TAG": "<?php ", "CLOSE_TAG": "?>", "FN": "fn(", "FUNCTION": "function(){", "IF": "if(", "E380": "\xe3\x80", "E38080": "\xe3\x80\x80", "BACKSLASH": "\\",
 	"CRLF": "\r\n", "HASH": "#", "NUL": "\x00", "UTF8": "é你", "CASE": "case 1:", "SWITCH": "switch($x){", "CLASS": "class A{", "NEW": "new ", "ECHO": "echo ",
 	"RETURN": "return ", "OBJ_ARROW": "->", "SCOPE": "::", "QUESTION": "?", "COLON": ":", "AMP": "&", "AT": "@", "FOR": "for($i=0;", "WHILE": "while(", "FOREACH": "foreach($x as ",
